@@ -200,7 +200,8 @@ func vPod(name string, sel vSel) *corev1.Pod {
 	}
 	pod.Annotations[constant.ExtendedCNIArgsAnnotation] = `{"common":{"ipinfos":[{"ip":"10.1.0.10/24","vlan":2,"gateway":"10.1.0.1"}]}}`
 	if sel.wantENI {
-		pod.Spec.Containers = []corev1.Container{{Name: "c", Resources: corev1.ResourceRequirements{
+		// the ENI IP is requested by the second container (a sidecar without requests comes first)
+		pod.Spec.Containers = []corev1.Container{{Name: "sidecar"}, {Name: "c", Resources: corev1.ResourceRequirements{
 			Requests: corev1.ResourceList{constant.ResourceName: resource.Quantity{}}}}}
 	}
 	return pod
